@@ -1,6 +1,7 @@
 package q
 
 import (
+	"errors"
 	"fmt"
 
 	"github.com/elliotchance/gedcom/v39"
@@ -14,7 +15,20 @@ type Engine struct {
 // Evaluate executes all of the expressions and returns the final result.
 //
 // Evaluate expects that there is at least one document provided.
-func (e *Engine) Evaluate(documents []*gedcom.Document) (interface{}, error) {
+func (e *Engine) Evaluate(documents []*gedcom.Document) (result interface{}, err error) {
+	// A query is a program written by the user. Whatever goes wrong while it
+	// runs (like a function that receives a value it cannot work with) is a
+	// problem with the query and must be reported as an error.
+	defer func() {
+		if r := recover(); r != nil {
+			result, err = nil, fmt.Errorf("%v", r)
+		}
+	}()
+
+	if len(documents) == 0 {
+		return nil, errors.New("no documents to evaluate")
+	}
+
 	// Before we begin we will setup the Document variables. Each document, in
 	// order will be given Document1, Document2, ...
 	for i, document := range documents {
